@@ -8,6 +8,7 @@ From Coq Require Import String Ascii.
 From Coq Require Import List.
 Require Import Base JsonEscape Stats Tables_statslog StatsProofs C19Record C19RecordProofs Lexer C19LexerFinite C19TextRecords Tables_statsrecord C19Schema.
 Require Import Condense C19DocNumbers C19Concurrent C19ConcurrentProofs.
+Require Import Tables_statssession C19Session C19SessionProofs.
 From Coq Require Import ZArith.
 Local Open Scope N_scope.
 
@@ -802,3 +803,54 @@ Example C19_document_numbers_nonvacuous :
   = Ok [mktok (mkspan 0 4) (KNumber (mknumber false 31 0%Z None 16 0)); mktok (mkspan 4 5) (KSpace 1);
         mktok (mkspan 5 8) (KNumber (mknumber false 2 0%Z (Some Tables_lexer.SufNd) 10 0))].
 Proof. exact (conj made_from_document_example (proj2 document_numbers_example)). Qed.
+
+(* ================= harper-ls session histories (Model/C19Session.v) ================= *)
+
+(* the sites of harper-ls/src/backend.rs that touch the statistics, re-read from /repo on every run: save_stats() (which appends ALL
+   records held in memory and drains nothing) is called from `shutdown` alone, once; records are made in execute_command alone.
+   A new call site (seeded c19-5: did_save) makes this — and C19_ls_history_log_once, stated over the table — fail *)
+Theorem C19_ls_stats_sites_are_sources : ls_save_stats_callers = ["shutdown"%string] /\ ls_save_stats_calls = 1%nat /\ ls_record_pushers = ["execute_command"%string] /\
+  ls_stats_drained = false /\ ls_save_stats_reads_only = true.
+Proof. exact ls_stats_sites_ok. Qed.
+Check C19_ls_stats_sites_are_sources : ls_save_stats_callers = ["shutdown"%string] /\ ls_save_stats_calls = 1%nat /\ ls_record_pushers = ["execute_command"%string] /\
+  ls_stats_drained = false /\ ls_save_stats_reads_only = true.
+Print Assumptions C19_ls_stats_sites_are_sources.
+
+(* the session model: any number of server processes one after the other on the same log, each any sequence of HarperRecordLint
+   commands and other handlers (didOpen / didChange / didSave / didClose / configuration ...), then shutdown: the log grows by the
+   lints applied, in order, each exactly once *)
+Theorem C19_ls_history_appends_once : forall (A : Type) (ss : list (list (ls_event A))) (log : list A), Forall (no_shutdown A) ss ->
+  ls_history A ["shutdown"%string] log ss = log ++ concat (map (recorded A) ss).
+Proof. exact ls_history_appends_once. Qed.
+Check C19_ls_history_appends_once : forall (A : Type) (ss : list (list (ls_event A))) (log : list A), Forall (no_shutdown A) ss ->
+  ls_history A ["shutdown"%string] log ss = log ++ concat (map (recorded A) ss).
+Print Assumptions C19_ls_history_appends_once.
+
+(* with the call sites AS THE SOURCES HAVE THEM (the generated table), at the level of the file: after any session history Stats::read
+   gives the old records followed by the lints applied, in order, each exactly once *)
+Theorem C19_ls_history_log_once : forall (F : Type) (finite : F -> Prop) (print_f64 : F -> bytes) (parse_f64 : bytes -> option F),
+  float_rt F finite print_f64 parse_f64 ->
+  forall file old (ss : list (list (ls_event (record F)))),
+  terminated file -> read (record F) (de_record F finite print_f64 parse_f64) file = Some old ->
+  Forall (no_shutdown (record F)) ss ->
+  Forall (Forall (good F finite print_f64 parse_f64)) (map (recorded (record F)) ss) ->
+  read (record F) (de_record F finite print_f64 parse_f64)
+    (file ++ write (record F) (ser_record F finite print_f64 parse_f64) (ls_history (record F) ls_save_stats_callers [] ss))
+  = Some (old ++ concat (map (recorded (record F)) ss)).
+Proof. exact ls_history_log_once. Qed.
+Check C19_ls_history_log_once : forall (F : Type) (finite : F -> Prop) (print_f64 : F -> bytes) (parse_f64 : bytes -> option F),
+  float_rt F finite print_f64 parse_f64 ->
+  forall file old (ss : list (list (ls_event (record F)))),
+  terminated file -> read (record F) (de_record F finite print_f64 parse_f64) file = Some old ->
+  Forall (no_shutdown (record F)) ss ->
+  Forall (Forall (good F finite print_f64 parse_f64)) (map (recorded (record F)) ss) ->
+  read (record F) (de_record F finite print_f64 parse_f64)
+    (file ++ write (record F) (ser_record F finite print_f64 parse_f64) (ls_history (record F) ls_save_stats_callers [] ss))
+  = Some (old ++ concat (map (recorded (record F)) ss)).
+Print Assumptions C19_ls_history_log_once.
+
+Example C19_ls_second_call_site_duplicates :
+  ls_history nat ["did_save"%string; "shutdown"%string] [] [[EvRecord nat 1%nat; EvHandler nat "did_save"%string; EvRecord nat 2%nat]] = [1; 1; 2]%nat /\
+  ls_history nat ["shutdown"%string] [] [[EvRecord nat 1%nat; EvHandler nat "did_save"%string; EvRecord nat 2%nat]; [EvHandler nat "did_open"%string; EvRecord nat 3%nat]] = [1; 2; 3]%nat /\
+  no_shutdown nat [EvRecord nat 1%nat; EvHandler nat "did_save"%string; EvRecord nat 2%nat].
+Proof. exact ls_second_call_site_duplicates. Qed.
